@@ -13,7 +13,7 @@
 //!
 //! Scenario line:
 //!   {"id": "...", "to_us": 30000 | -1 (None), "timers": [{"n": "mid", "d_us": 100000, "far": 0}, ...],
-//!    "src": ["ping_live", "ping_closed", "chan_closed", "exec_idle", "gen_idle", "gen_disabled", "life_synth"],
+//!    "src": ["ping_live", "ping_closed", "chan_closed", "exec_idle", "gen_idle", "gen_disabled", "life_synth", "life_slow"], "bs_us": 50000,
 //!    "wake": "none" | "signal" | "ping", "wk_us": 60000, "intr": 0 | 1, "ik_us": 5000,
 //!    "s2_us": 30000, "guard_us": 1500000}
 //!
@@ -158,6 +158,60 @@ impl EventSource for LifeSynth {
             ))),
             _ => Ok(None),
         }
+    }
+
+    fn before_handle_events(&mut self, _: EventIterator<'_>) {}
+}
+
+/// Idle fd + a `before_sleep` that takes `dur` (user code running between the start of the dispatch and the wait)
+/// while armed, and returns None.  The end of the last slow before_sleep is kept in BS_END.
+struct LifeSlow {
+    fd: OwnedFd,
+    armed: Rc<Cell<bool>>,
+    dur: Duration,
+}
+
+thread_local! {
+    static BS_END: Cell<Option<Instant>> = const { Cell::new(None) };
+}
+
+impl EventSource for LifeSlow {
+    type Event = ();
+    type Metadata = ();
+    type Ret = ();
+    type Error = std::io::Error;
+
+    fn process_events<F>(&mut self, _: Readiness, _: Token, mut callback: F) -> Result<PostAction, Self::Error>
+    where
+        F: FnMut((), &mut ()),
+    {
+        callback((), &mut ());
+        Ok(PostAction::Continue)
+    }
+
+    fn register(&mut self, poll: &mut Poll, tf: &mut TokenFactory) -> calloop::Result<()> {
+        unsafe { poll.register(&self.fd, Interest::READ, Mode::Level, tf.token()) }
+    }
+
+    fn reregister(&mut self, poll: &mut Poll, tf: &mut TokenFactory) -> calloop::Result<()> {
+        poll.reregister(&self.fd, Interest::READ, Mode::Level, tf.token())
+    }
+
+    fn unregister(&mut self, poll: &mut Poll) -> calloop::Result<()> {
+        poll.unregister(&self.fd)
+    }
+
+    const NEEDS_EXTRA_LIFECYCLE_EVENTS: bool = true;
+
+    fn before_sleep(&mut self) -> calloop::Result<Option<(Readiness, Token)>> {
+        if self.armed.get() {
+            let until = Instant::now() + self.dur;
+            while Instant::now() < until {
+                std::thread::sleep(until.saturating_duration_since(Instant::now()));
+            }
+            BS_END.with(|b| b.set(Some(Instant::now())));
+        }
+        Ok(None)
     }
 
     fn before_handle_events(&mut self, _: EventIterator<'_>) {}
@@ -420,6 +474,23 @@ fn run_scenario(scn: &Value) {
         keep.push(Box::new(w));
     }
 
+    let slow_armed = Rc::new(Cell::new(false));
+    if has("life_slow") {
+        let (r, w) = pipe();
+        handle
+            .insert_source(
+                LifeSlow {
+                    fd: r,
+                    armed: slow_armed.clone(),
+                    dur: Duration::from_micros(scn["bs_us"].as_u64().unwrap_or(50_000)),
+                },
+                |(), &mut (), d: &mut Shared| d.cbs.push("slow".into()),
+            )
+            .expect("insert life_slow");
+        keep.push(Box::new(w));
+    }
+    BS_END.with(|b| b.set(None));
+
     // warm-up: settles the sources (the executor polls its pending future once); nothing may be delivered
     let warm = measure(&mut el, &mut sh, Some(Duration::ZERO), || {});
     let warm_cbs = warm.cbs.len() + warm.fired.len();
@@ -520,7 +591,12 @@ fn run_scenario(scn: &Value) {
 
     // ---- 4. the measured dispatch
     let st_b = handle.verif_stats();
-    let m1 = measure(&mut el, &mut sh, timeout, || armed.set(has("life_synth")));
+    let m1 = measure(&mut el, &mut sh, timeout, || {
+        armed.set(has("life_synth"));
+        slow_armed.set(has("life_slow"));
+    });
+    slow_armed.set(false);
+    let bs_end_us = BS_END.with(|b| b.get()).map(|t| us_since(t, t0)).unwrap_or(0);
     let st_a = handle.verif_stats();
 
     // ---- 5. cancel the helper; absorb a late notification
@@ -543,6 +619,7 @@ fn run_scenario(scn: &Value) {
             "acts": acts.iter().map(|a| json!({"a": a.0, "b_us": a.1, "a_us": a.2})).collect::<Vec<_>>(),
             "intr_hits": INTR_HITS.load(Ordering::SeqCst),
             "drained": drained, "drain_fired": drain_fired, "drain_cbs": drain_cbs,
+            "bs_end_us": bs_end_us,
         }),
     );
 
